@@ -363,3 +363,20 @@ Theorem nested_add :
     /\ (forall j, ~ In j (flat t) -> s' j = s j).
 Proof. exact @nested_add_correct. Qed.
 Print Assumptions nested_add.
+
+(* x += y on an arbitrarily nested product space: the leaves of x are pairwise distinct and a
+   leaf of y that is also a leaf of x sits at the same position (y is x, or y shares components
+   with x): every leaf of x becomes the entry-wise sum of the INITIAL leaves; nothing else changes. *)
+Theorem nested_iadd :
+  forall (T : Type) (N : Num T) (F : NumField T)
+         (flg : nat -> bool * bool) (bdtf : nat -> bool) (icast : T -> T)
+         (sp : space) (x y : elem) (s : store T),
+  conf sp x -> conf sp y -> NoDup (flat x) ->
+  (forall q q', In q (quads sp x y x) -> In q' (quads sp x y x) -> q_x2 q' = q_out q -> q_out q' = q_out q) ->
+  lens_ok s (quads sp x y x) ->
+  exists s', w_iadd flg bdtf icast sp x y s = Ok s'
+    /\ (forall q, In q (quads sp x y x) -> q_fl q = true ->
+          s' (q_out q) = vadd (s (q_x1 q)) (s (q_x2 q)))
+    /\ (forall j, ~ In j (flat x) -> s' j = s j).
+Proof. exact @nested_iadd_correct. Qed.
+Print Assumptions nested_iadd.
